@@ -103,6 +103,7 @@ def run_property(prop: str, tier: str, seed: int, repo: str) -> dict[str, Any]:
         "vacuity": {"contracts": len(mine), "contracts_with_obligations": 0, "covers": 0, "covers_sat": 0},
     }
     needs_input: set = set()
+    open_contracts: set = set()
     replays: dict = {}
     for res in results:
         con = all_contracts[res["contract"]]
@@ -152,6 +153,7 @@ def run_property(prop: str, tier: str, seed: int, repo: str) -> dict[str, Any]:
                                            "backend": ob["backend"], "seconds": ob["seconds"]})
             elif ob["status"] == "undecided":
                 out["undecided"].append({"obligation": ob["name"], "detail": ob["detail"]})
+                open_contracts.add(res["contract"])
             else:
                 viol = {"kind": "deductive", "obligation": ob["name"], "contract": res["contract"],
                         "target": res["target"], "model": ob["model"], "detail": ob["detail"],
@@ -191,7 +193,8 @@ def run_property(prop: str, tier: str, seed: int, repo: str) -> dict[str, Any]:
             })
     # a refuted obligation without an input (a loop invariant, a state after a cut loop): look for a
     # concrete failing input with the loops run as they are on small inputs, and replay it natively
-    for cname in sorted(needs_input):
+    # ... and an obligation the solvers left open: the same search may still find a concrete failing input
+    for cname in sorted(needs_input | open_contracts):
         try:
             res = _task((repo, cname, timeout_ms, "small", open_ids))
         except Exception:  # pylint: disable=broad-except
@@ -207,6 +210,15 @@ def run_property(prop: str, tier: str, seed: int, repo: str) -> dict[str, Any]:
             rep = native_replay(repo, cname, ob["model"])
             if rep.get("status") != "reproduced":
                 continue
+            if cname not in needs_input:
+                out["violations"].append({
+                    "kind": "deductive", "obligation": ob["name"], "contract": cname, "target": res["target"],
+                    "model": ob["model"], "has_input": True, "native_replay": rep,
+                    "solver_output": f"z3 sat; model {json.dumps(ob['model'])}",
+                    "input_found_by": "counterexample search after an obligation was left open by the solvers: the same "
+                                      "contract with its loops run as they are (no invariants) on sequences of <= 2 elements",
+                    "detail": f"{rep.get('detail', '')} | {ob['detail']}"})
+                break
             for viol in out["violations"]:
                 if viol["contract"] == cname and not viol["has_input"]:
                     viol["has_input"] = True
